@@ -78,6 +78,14 @@ fn conc_save(books: &[Spreadsheet], st: &Value, id: &Value) -> Vec<Value> {
     let savers: Vec<usize> = st["savers"].as_array().unwrap().iter().map(|x| x.as_u64().unwrap() as usize).collect();
     let schedule: Vec<usize> = st["schedule"].as_array().unwrap().iter().map(|x| x.as_u64().unwrap() as usize).collect();
     let n = savers.len();
+    // optional: file names (in a fresh scratch directory) for path-based saves
+    let dir = std::env::temp_dir().join(format!("uverif-sst-{}-{}", std::process::id(), id));
+    let names: Vec<String> = st.get("paths").and_then(|x| x.as_array()).map(|a| a.iter().map(|x| x.as_str().unwrap().to_string()).collect()).unwrap_or_default();
+    if !names.is_empty() {
+        let _ = std::fs::remove_dir_all(&dir);
+        std::fs::create_dir_all(&dir).expect("scratch dir");
+    }
+    let paths: Vec<String> = names.iter().map(|x| dir.join(x).to_string_lossy().to_string()).collect();
     // one shared object per distinct workbook named (a clone of the harness's own object: it shares
     // whatever a clone shares with its original)
     let mut objs: std::collections::HashMap<usize, Arc<Spreadsheet>> = std::collections::HashMap::new();
@@ -89,6 +97,7 @@ fn conc_save(books: &[Spreadsheet], st: &Value, id: &Value) -> Vec<Value> {
     let mut handles = vec![];
     for i in 0..n {
         let book = objs[&savers[i]].clone();
+        let paths = paths.clone();
         let sched = sched.clone();
         let results = results.clone();
         handles.push(std::thread::spawn(move || {
@@ -107,9 +116,14 @@ fn conc_save(books: &[Spreadsheet], st: &Value, id: &Value) -> Vec<Value> {
                 g.granted[i] = false;
                 g.at[i] = 0;
             })));
-            let r = catch_unwind(AssertUnwindSafe(|| {
-                let mut buf: Vec<u8> = Vec::new();
-                umya_spreadsheet::writer::xlsx::write_writer(&book, &mut buf).map(|_| buf).map_err(|e| format!("{:?}", e))
+            let path = paths.get(i).cloned();
+            let r = catch_unwind(AssertUnwindSafe(|| match &path {
+                None => {
+                    let mut buf: Vec<u8> = Vec::new();
+                    umya_spreadsheet::writer::xlsx::write_writer(&book, &mut buf).map(|_| buf).map_err(|e| format!("{:?}", e))
+                }
+                // path-based save: the bytes are read back from the destination once every saver has finished
+                Some(p) => umya_spreadsheet::writer::xlsx::write(&book, std::path::Path::new(p)).map(|_| Vec::new()).map_err(|e| format!("{:?}", e)),
             }));
             umya_spreadsheet::verif_hooks::set_yield_hook(None);
             let r = match r {
@@ -175,8 +189,12 @@ fn conc_save(books: &[Spreadsheet], st: &Value, id: &Value) -> Vec<Value> {
         for h in handles {
             let _ = h.join();
         }
-        for r in results.lock().unwrap().iter() {
+        for (i, r) in results.lock().unwrap().iter().enumerate() {
             outs.push(match r {
+                Some(Ok(b)) if !paths.is_empty() => match std::fs::read(&paths[i]) {
+                    Ok(bytes) => json!({"outcome":"ok","hex":hex(&bytes)}),
+                    Err(_) => json!({"outcome":"err","hex":""}),
+                },
                 Some(Ok(b)) => json!({"outcome":"ok","hex":hex(b)}),
                 Some(Err(e)) if e == "panic" => json!({"outcome":"panic","hex":""}),
                 Some(Err(_)) => json!({"outcome":"err","hex":""}),
@@ -184,7 +202,21 @@ fn conc_save(books: &[Spreadsheet], st: &Value, id: &Value) -> Vec<Value> {
             });
         }
     }
-    events.push(json!({"a":"Done","case":id,"savers":st["savers"],"outcome": if stuck {"timeout"} else {"ok"},"outs":outs,
+    // anything left in the scratch directory besides the destinations (e.g. temporary files)
+    let mut leftovers: Vec<String> = vec![];
+    if !paths.is_empty() {
+        if let Ok(rd) = std::fs::read_dir(&dir) {
+            for e in rd.flatten() {
+                let nm = e.file_name().to_string_lossy().to_string();
+                if !names.contains(&nm) {
+                    leftovers.push(nm);
+                }
+            }
+        }
+        leftovers.sort();
+        let _ = std::fs::remove_dir_all(&dir);
+    }
+    events.push(json!({"a":"Done","case":id,"leftovers":leftovers,"savers":st["savers"],"outcome": if stuck {"timeout"} else {"ok"},"outs":outs,
                        "texts": all_texts(books)}));
     events
 }
@@ -214,7 +246,23 @@ fn run(case: &Value) -> Vec<Value> {
                 "SetText" => {
                     let w = u(st, "w") as usize - 1;
                     let name = if u(st, "sh") == 1 { "S1" } else { "S2" };
-                    books[w].get_sheet_by_name_mut(name).ok_or("no sheet")?.get_cell_mut((1, u(st, "r"))).set_value_string(s(st, "s"));
+                    let cell = books[w].get_sheet_by_name_mut(name).ok_or("no sheet")?.get_cell_mut((1, u(st, "r")));
+                    let text = s(st, "s");
+                    if st.get("rich").and_then(|x| x.as_bool()).unwrap_or(false) {
+                        // a rich text of two runs whose concatenation is the text
+                        let mid = text.char_indices().nth(text.chars().count() / 2).map(|x| x.0).unwrap_or(0);
+                        let mut rt = umya_spreadsheet::structs::RichText::default();
+                        let mut a = umya_spreadsheet::structs::TextElement::default();
+                        a.set_text(&text[..mid]);
+                        a.get_font_mut().set_bold(true);
+                        let mut b = umya_spreadsheet::structs::TextElement::default();
+                        b.set_text(&text[mid..]);
+                        rt.add_rich_text_elements(a);
+                        rt.add_rich_text_elements(b);
+                        cell.set_rich_text(rt);
+                    } else {
+                        cell.set_value_string(text);
+                    }
                 }
                 "Delete" => {
                     let w = u(st, "w") as usize - 1;
